@@ -764,11 +764,16 @@ impl InstrFormat for StdHooks06 {
         Ok(ReadInstr::Instr(RawInstr { time, opcode: opcode as _, param_mask: 0, args_blob, ..RawInstr::DEFAULTS }))
     }
 
-    fn write_instr(&self, f: &mut BinWriter, _: &dyn Emitter, instr: &RawInstr) -> WriteResult {
+    fn write_instr(&self, f: &mut BinWriter, emitter: &dyn Emitter, instr: &RawInstr) -> WriteResult {
         f.write_i32(instr.time)?;
         f.write_u16(instr.opcode)?;
         f.write_u16(12)?;  // this version writes argsize rather than instr size
-        assert_eq!(instr.args_blob.len(), 12);
+        if instr.args_blob.len() != 12 {
+            return Err(emitter.as_sized().emit(error!(
+                "instruction arguments occupy {} bytes, but all instructions in this format must have exactly 12 bytes of arguments",
+                instr.args_blob.len(),
+            )));
+        }
         f.write_all(&instr.args_blob)?;
         Ok(())
     }
